@@ -211,12 +211,40 @@ def _k7(ctx):
     ctx.floor(R, 3)
 
 
+def _k8(ctx):
+    R = "C13-K8"
+    ctx.doc(R, "rows are matched under the permuted compatibilities the joined key was built from; splitting a table for parallel work partitions its rows")
+    PG = "accelforge/mapper/FFM/_join_pmappings/pmapping_group.py"
+    mg = ctx.func(PG, "PmappingGroup.merge_next", R)
+    calls = [c for c in mg.calls() if kwarg(c, "compatibility_right") is not None and kwarg(c, "compatibility_left") is not None]
+    ctx.require(len(calls) == 1, R, f"row-merge call with compatibility_left/right: {len(calls)}")
+    c = calls[0]
+    for side in ("left", "right"):
+        v = norm(kwarg(c, f"compatibility_{side}"))
+        ctx.check(v == f"permuted_compatibility_{side}", R, mg, c, f"`compatibility_{side}={v}`: the rows of the {side} table are matched with the loop order of its stored key, not of the permutation under which the pair was found compatible: "
+                  "tile-shape columns are compared across the wrong loops, so disagreeing pmappings are combined and agreeing ones dropped", f"compatibility_{side} = the permuted key")
+    sp = ctx.func(PD, "PmappingDataframe.split_in_half", R)
+    from ..norm import Normaliser
+    N = Normaliser()
+    sl = [x for x in ast.walk(sp.node) if isinstance(x, ast.Subscript) and isinstance(x.slice, ast.Slice) and norm(x.value).endswith(".iloc")]
+    ctx.require(len(sl) == 2, R, f"row slices in split_in_half: {len(sl)}")
+    a, b = sorted(sl, key=lambda x: x.lineno)
+    ok = a.slice.lower is None and a.slice.upper is not None and b.slice.upper is None and b.slice.lower is not None and a.slice.step is None and b.slice.step is None
+    same = ok and N.poly(a.slice.upper) == N.poly(b.slice.lower)
+    ctx.check(ok and same, R, sp, b, f"the halves are `{norm(a)}` and `{norm(b)}`: they do not partition the rows (a row is lost or duplicated when the table has an odd number of rows), so with more workers than groups a pmapping silently disappears from the join",
+              "halves are [:mid] and [mid:] of the same table")
+    ctx.floor(R, 3)
+
+
 def check(ctx):
     _core(ctx)
     _k6(ctx)
     _k7(ctx)
+    _k8(ctx)
 
 VARIANTS = [
+    {"kind": "F", "name": "rows-matched-with-unpermuted-key", "rule": "C13-K8", "edits": [("accelforge/mapper/FFM/_join_pmappings/pmapping_group.py", "            compatibility_right=permuted_compatibility_right,", "            compatibility_right=right.compatibility,")]},
+    {"kind": "F", "name": "split-loses-middle-row", "rule": "C13-K8", "edits": [(PD, "            data=self.data.iloc[mid:].copy(),", "            data=self.data.iloc[len(self.data) - mid :].copy(),")]},
     {"kind": "F", "name": "shallowest-reservation-level-skipped", "rule": "C13-K7", "edits": [(PD, "        for nloops in range(max_nloops, min_nloops - 1, -1):", "        for nloops in range(max_nloops, min_nloops, -1):")]},
     {"kind": "F", "name": "thresholder-skips-absent-column", "rule": "C13-K6", "edits": [(JP, "                if k not in edp_mapping.columns:\n                    nondominated |= True\n                else:\n                    nondominated |= edp_mapping[k] <= v", "                if k not in edp_mapping.columns:\n                    continue\n                nondominated |= edp_mapping[k] <= v")]},
     {"kind": "S", "name": "one-more-level-below", "edits": [(PD, "        for nloops in range(max_nloops, min_nloops - 1, -1):", "        for nloops in range(max_nloops, min_nloops - 2, -1):")]},
